@@ -57,7 +57,7 @@ manifest = {
     }],
     'checks': checks,
     'not_applicable': na,
-    'notes': 'Genuine defects found by the checks were repaired in /repo as "fix:" commits and are listed in known_findings.json (fixed:).',
+    'notes': 'Genuine defects found by the checks were repaired in /repo as "fix:" commits and are listed in known_findings.json (fixed:); three defects whose repair is not small are recorded there as findings (C01, C06, C14) and are printed as KNOWN-FINDING lines by their checks.',
 }
 with open(os.path.join(VERIF, 'MANIFEST.json'), 'w') as f:
     json.dump(manifest, f, indent=1)
